@@ -353,6 +353,16 @@ func (g *G) history(rid int, c histCfg, steps int) {
 		pool = append(pool, p)
 		g.emit("handle %d %s %d %s %s", rid, encB(p), nextH, "%-", encL([]string{"GET"}))
 		nextH++
+		// two routes that share a handler-less intermediate node next to the indexed siblings
+		if g.chance(0.7) {
+			stem := parent + g.pick([]string{"a", "z", "m"}) + g.pick([]string{"b", "q"})
+			for _, tail := range []string{"1", "2", "/" + g.token(c.useIc)}[:2+g.intn(2)] {
+				q := stem + tail
+				pool = append(pool, q)
+				g.emit("handle %d %s %d %s %s", rid, encB(q), nextH, "%-", encL([]string{"GET"}))
+				nextH++
+			}
+		}
 		probe()
 	}
 	for s := 0; s < steps && !g.full(); s++ {
@@ -399,6 +409,17 @@ func (g *G) history(rid int, c histCfg, steps int) {
 			nextH++
 		}
 		probe()
+	}
+	// teardown: remove what is left one pattern at a time (cascading prunes), probing after every step
+	if !c.addOnly && g.chance(0.5) {
+		order := g.r.Perm(len(pool))
+		for _, i := range order {
+			if g.full() {
+				break
+			}
+			g.emit("remove %d %s %s", rid, encB(pool[i]), "%-")
+			probe()
+		}
 	}
 }
 
